@@ -123,9 +123,10 @@ def _rv_ops(r):
 
 
 class State:
-    __slots__ = ("iv", "facts", "sym", "cong", "cond")
+    __slots__ = ("iv", "facts", "sym", "cong", "cond", "rel")
 
-    def __init__(self, iv=None, facts=frozenset(), sym=None, cong=None, cond=None):
+    def __init__(self, iv=None, facts=frozenset(), sym=None, cong=None, cond=None, rel=frozenset()):
+        self.rel = rel      # relational congruences ("mult", a, b): a is a multiple of b
         self.iv = iv if iv is not None else {}
         self.facts = facts
         self.sym = sym if sym is not None else {}
@@ -133,7 +134,7 @@ class State:
         self.cond = cond if cond is not None else {}   # result local -> facts that hold if it is Ok
 
     def copy(self):
-        return State(dict(self.iv), self.facts, dict(self.sym), dict(self.cong), dict(self.cond))
+        return State(dict(self.iv), self.facts, dict(self.sym), dict(self.cong), dict(self.cond), self.rel)
 
     def kill(self, key):
         """An assignment to `key` invalidates everything known about it and its fields."""
@@ -148,6 +149,8 @@ class State:
         if self.cond:
             for k in [k for k, fs in self.cond.items() if _mentions(k, key) or any(_mentions(f[1], key) for f in fs)]:
                 del self.cond[k]
+        if self.rel:
+            self.rel = frozenset(r for r in self.rel if not (_mentions(r[1], key) or _mentions(r[2], key)))
 
 
 def join(a, b):
@@ -158,11 +161,11 @@ def join(a, b):
     sym = {k: v for k, v in a.sym.items() if b.sym.get(k) == v}
     cong = {k: gcd(v, b.cong[k]) for k, v in a.cong.items() if k in b.cong and gcd(v, b.cong[k]) > 1}
     cond = {k: v for k, v in a.cond.items() if b.cond.get(k) == v}
-    return State(iv, a.facts & b.facts, sym, cong, cond)
+    return State(iv, a.facts & b.facts, sym, cong, cond, a.rel & b.rel)
 
 
 def same(a, b):
-    return a.iv == b.iv and a.facts == b.facts and a.sym == b.sym and a.cong == b.cong and a.cond == b.cond
+    return a.iv == b.iv and a.facts == b.facts and a.sym == b.sym and a.cong == b.cong and a.cond == b.cond and a.rel == b.rel
 
 
 CONST_FIELDS = {}       # const item path -> {field: value} for struct constants (filled in by the inventory from the facts)
@@ -287,6 +290,7 @@ class Analysis:
                     defs[k] = (bi, -1, {"k": "callret", "t": t})
         self.single = {k: defs[k] for k, c in counts.items() if c == 1 and k in defs}
         self.defcount = counts
+        self.quotients = {}     # symbol of floor(a / c) -> (linear form a, constant c > 0)
 
     def place_ty(self, key):
         if key in self.tys:
@@ -545,6 +549,7 @@ class Analysis:
                     if la is not None:
                         # q = floor(a / c):  c*q <= a  and  a <= c*q + (c-1)   (a == c*q when exact)
                         q = expr_sym("Div<%s>" % aty, lin_repr(la), lin_repr(lb))
+                        self.quotients[q[1][0][0]] = (la, c)
                         st.facts = st.facts | frozenset([
                             lin_add(lin_scale(q, c), la, -1),
                             lin_add(lin_add(la, lin_scale(q, c), -1), lin_const(0 if exact else c - 1), -1)])
@@ -800,6 +805,10 @@ class Analysis:
             if truth and m and m[0] == m[1] and m[0] > 1 and ln is not None and ln[0] == 0 and len(ln[1]) == 1 and ln[1][0][1] == 1:
                 s = ln[1][0][0]
                 st.cong[s] = st.cong.get(s, 1) * m[0] // gcd(st.cong.get(s, 1), m[0])
+            elif truth and ln is not None and ln[0] == 0 and len(ln[1]) == 1 and ln[1][0][1] == 1:
+                lm = self.op_lin(st, args[1])
+                if lm is not None and lm[0] == 0 and len(lm[1]) == 1 and lm[1][0][1] == 1:
+                    st.rel = st.rel | frozenset([("mult", ln[1][0][0], lm[1][0][0])])
         return True
 
     def _len_sym(self, o):
@@ -981,6 +990,14 @@ class Analysis:
                         elif kind == "cong":
                             c0 = st.cong.get(sym, 1)
                             st.cong[sym] = c0 * val // gcd(c0, val)
+                    # a multiple of m within [lo, hi] lies within [ceil(lo/m)*m, floor(hi/m)*m]
+                    for kind, sym, val in st.cond[rk]:
+                        m = st.cong.get(sym, 1)
+                        cur = st.iv.get(sym)
+                        if m > 1 and cur is not None:
+                            lo, hi = -((-cur[0]) // m) * m, (cur[1] // m) * m
+                            if lo <= hi:
+                                st.iv[sym] = (lo, hi)
 
     def _call_effect(self, st, t):
         from mirlib import callee_name
@@ -1112,6 +1129,15 @@ class Analysis:
         if summ and summ.get("ok"):
             out = []
             for kind, sym, val in summ["ok"]:
+                if kind == "mult":
+                    # Ok implies `argument a is a multiple of argument b`: a congruence of a when b is a known constant
+                    ma, mb = re.match(r"^_(\d+)$", sym), re.match(r"^_(\d+)$", val)
+                    if ma and mb and int(ma.group(1)) <= len(args) and int(mb.group(1)) <= len(args):
+                        la = self.op_lin(st, args[int(ma.group(1)) - 1])
+                        bv = self.op_iv(st, args[int(mb.group(1)) - 1])
+                        if la is not None and la[0] == 0 and len(la[1]) == 1 and la[1][0][1] == 1 and bv and bv[0] == bv[1] and bv[0] > 1:
+                            out.append(("cong", la[1][0][0], bv[0]))
+                    continue
                 m = re.match(r"^(len\()?_(\d+)\)?$", sym)
                 if not m:
                     continue
@@ -1141,6 +1167,19 @@ class Analysis:
         if not key or not self.tracked(key):
             return
         dty = self.tys.get(key)
+        if re.search(r"slice::<impl \[T\]>::chunks_exact(_mut)?$", name) and len(args) == 2:
+            civ = self.op_iv(st, args[1], "usize")
+            if civ:
+                st.iv[key + ".chunk"] = civ           # every piece the iterator yields has this many elements
+            return
+        if re.search(r"slice::ChunksExact(Mut)?<'a, T> as core::iter::(Iterator|DoubleEndedIterator)>::(last|next|next_back|nth)$", name) and args:
+            ap = op_place(args[0])
+            ak = key_of(ap) if ap else None
+            ak = (self._ref_source(ak) or ak) if ak else None
+            civ = st.iv.get(ak + ".chunk") if ak else None
+            if civ:
+                st.iv["len(%s.@Some.0)" % key] = civ
+            return
         if range_next is not None:
             s_iv, e_iv, e_ln, it = range_next
             pay = key + ".@Some.0"
@@ -1390,7 +1429,7 @@ class Analysis:
                         iv[k] = (lo, hi) if lo <= hi else acc.iv[k]
                     else:
                         iv[k] = acc.iv[k]
-                self.inn[bi] = State(iv, acc.facts, acc.sym, acc.cong, acc.cond)
+                self.inn[bi] = State(iv, acc.facts, acc.sym, acc.cong, acc.cond, acc.rel)
         return self
 
     def _thr_up(self, v, rng):
@@ -1438,6 +1477,9 @@ class Analysis:
                         facts.add(("iv", sym, st.iv[sym]))
                     if st.cong.get(sym, 1) > 1:
                         facts.add(("cong", sym, st.cong[sym]))
+            for r in st.rel:
+                if r[1] in args and r[2] in args:
+                    facts.add(r)
             return facts
 
         def merge(ok, facts):
@@ -1446,7 +1488,10 @@ class Analysis:
             merged = set()
             for f in ok:
                 for g in facts:
-                    if f[0] == g[0] and f[1] == g[1]:
+                    if f[0] == "mult":
+                        if f == g:
+                            merged.add(f)
+                    elif f[0] == g[0] and f[1] == g[1]:
                         if f[0] == "iv":
                             merged.add(("iv", f[1], (min(f[2][0], g[2][0]), max(f[2][1], g[2][1]))))
                         elif gcd(f[2], g[2]) > 1:
